@@ -38,7 +38,8 @@ def opOf (j : Json) : Op :=
   | "gc" => .gc n ((arr j "xrs").map fun x =>
       { deleting := bool x "del", paused := bool x "paused", hasCompositionRef := !(bool x "nocomp"),
         ready := !(bool x "notready"), synced := !(bool x "unsynced"),
-        refs := (arr x "refs").map fun r => if str r "bad" == "" then some (nat r "g") else none })
+        refs := (arr x "refs").map fun r => if str r "bad" == "" then some (nat r "g") else none,
+        rev := if nat x "rev" == 0 then none else some (nat x "rev") })
   | "cacheRead" => .cacheRead (nat j "g")
   | _ => .removeInformer (nat j "g")
 
